@@ -24,7 +24,7 @@ def pools(quick):
     P_[UNIT] = [U]
     P_[('key_hash',)] = [KH(0, 0), KH(0, 255), KH(1, 0), KH(1, 7), KH(2, 0, 1), KH(2, 255), KH(3, 0), KH(3, 128)]
     P_[ADDR] = [addr(0, 0), addr(0, 255), addr(1, 1), addr(2, 2), addr(3, 3), addr(4, 0), addr(4, 255), addr(6, 0), addr(6, 9),
-                addr(4, 0, 'a'), addr(4, 0, 'b'), addr(0, 255, 'a'), addr(0, 255, 'ab')]
+                addr(4, 0, 'a'), addr(4, 0, 'b'), addr(0, 255, 'a'), addr(0, 255, 'ab'), addr(4, 0, 'set_default')]
     P_[('key',)] = [KEY(0, 32, 0, 0), KEY(0, 32, 255, 1), KEY(1, 33, 2, 0), KEY(1, 33, 2, 200), KEY(2, 33, 3, 0), KEY(2, 33, 3, 9),
                     KEY(3, 48, 0, 0), KEY(3, 48, 128, 5),
                     KEY(1, 33, 3, 0), KEY(1, 33, 3, 100), KEY(2, 33, 2, 9), KEY(2, 33, 2, 77)]      # the other y parity: against same-curve keys of the first parity only the order laws are checked
